@@ -1,4 +1,4 @@
-#!/bin/sh
+#!/bin/bash
 # Re-tries every seeded change against the current checks (4 at a time) and
 # writes one line per seed to .cache/seed_regression.log:  <seed> CAUGHT|MISSED|NOAPPLY <detail>
 cd /verif
